@@ -658,7 +658,7 @@ Section Facts.
     induction ids as [|i r IH]; intros b b' X; simpl in *.
     - inversion X; reflexivity.
     - destruct b as [|q s]; [discriminate|]. simpl.
-      destruct (Nat.eqb i (q_id q)); [apply IH; assumption|discriminate].
+      destruct (N.eqb i (q_id q)); [apply IH; assumption|discriminate].
   Qed.
 
   Lemma pass_wire_duty : forall e req d w m, decide e req = VPass d w m -> wire_duty req = Some d.
